@@ -110,6 +110,9 @@ type Script struct {
 	// RecvFirst makes the receiver goroutine start only after the sender
 	// goroutine has finished (needed for HTTP half-duplex).
 	RecvAfterSend bool `json:"recv_after_send,omitempty"`
+	// MutateAfterSend: every sender overwrites its message in place as soon as
+	// the send has returned (legal re-use; the log keeps a snapshot).
+	MutateAfterSend bool `json:"mutate_after_send,omitempty"`
 	// CancelAfterClient cancels the caller's context once the client actors
 	// are done (what an application does when it abandons a stream).
 	CancelAfterClient bool `json:"cancel_after_client,omitempty"`
@@ -467,10 +470,14 @@ func (r *Run) runHandlerOps(ctx context.Context, stream grpc.ServerStream) {
 			if stream == nil {
 				continue
 			}
-			r.rec(Event{Who: "h", Op: "send", Call: true, Msg: op.Msg})
+			msg, snap := r.sendArg(op.Msg)
+			r.rec(Event{Who: "h", Op: "send", Call: true, Msg: snap})
 			var err error
-			pan := guard(func() { err = stream.SendMsg(op.Msg) })
-			r.rec(Event{Who: "h", Op: "send", Msg: op.Msg, Err: err, Pan: pan})
+			pan := guard(func() { err = stream.SendMsg(msg) })
+			if r.S.MutateAfterSend {
+				mutateMsg(msg)
+			}
+			r.rec(Event{Who: "h", Op: "send", Msg: snap, Err: err, Pan: pan})
 		case "sendraw":
 			if stream == nil {
 				continue
@@ -617,6 +624,52 @@ func allStacks() string {
 	}
 }
 
+// sendArg returns the object to hand to the library and the snapshot to log.
+// With MutateAfterSend the object is a private deep copy that the sender
+// scribbles over after the send returned.
+func (r *Run) sendArg(m *tpb.Message) (msg, snap *tpb.Message) {
+	if !r.S.MutateAfterSend || m == nil {
+		return m, m
+	}
+	return proto.Clone(m).(*tpb.Message), m
+}
+
+// mutateMsg overwrites every part of m in place (same backing arrays, same
+// maps, same nested objects).
+func mutateMsg(m *tpb.Message) {
+	if m == nil {
+		return
+	}
+	for i := range m.Payload {
+		m.Payload[i] = 0xEE
+	}
+	m.Payload = append(m.Payload, "MUTATED"...)
+	m.Count ^= 0x5a5a5a
+	m.Code = 424242
+	for k, v := range m.Headers {
+		for i := range v {
+			v[i] = 0xEE
+		}
+		m.Headers[k] = append(v, 'M')
+	}
+	if m.Headers != nil {
+		m.Headers["mutated"] = []byte("M")
+	}
+	for k := range m.Trailers {
+		delete(m.Trailers, k)
+	}
+	for _, d := range m.ErrorDetails {
+		d.TypeUrl = "mutated"
+		for i := range d.Value {
+			d.Value[i] = 0xEE
+		}
+	}
+	if len(m.ErrorDetails) > 0 {
+		m.ErrorDetails = m.ErrorDetails[:len(m.ErrorDetails)-1]
+	}
+	m.ProtoReflect().SetUnknown(nil)
+}
+
 func (r *Run) newDest() *tpb.Message {
 	if r.Dest != nil {
 		return r.Dest()
@@ -676,10 +729,14 @@ func (r *Run) runClientOps(who string, st grpc.ClientStream, ops []Op) {
 	for _, op := range ops {
 		switch op.Op {
 		case "send":
-			r.rec(Event{Who: who, Op: "send", Call: true, Msg: op.Msg})
+			msg, snap := r.sendArg(op.Msg)
+			r.rec(Event{Who: who, Op: "send", Call: true, Msg: snap})
 			var err error
-			pan := guard(func() { err = st.SendMsg(op.Msg) })
-			r.rec(Event{Who: who, Op: "send", Msg: op.Msg, Err: err, Pan: pan})
+			pan := guard(func() { err = st.SendMsg(msg) })
+			if r.S.MutateAfterSend {
+				mutateMsg(msg)
+			}
+			r.rec(Event{Who: who, Op: "send", Msg: snap, Err: err, Pan: pan})
 		case "close":
 			var err error
 			pan := guard(func() { err = st.CloseSend() })
